@@ -12,9 +12,9 @@
 
    Contents
      1.  telescope_sum                      the arithmetic identity (any integers, no order hypothesis)
-     2a. supported_x                        supportedness for programs that also contain choice rules WITH bounds and
-                                            conditions (`{ p(G,V) : val(V) } 1 :- grp(G).` is such a rule; ChainSem's
-                                            supported_general only covers bound-free, condition-free choices)
+     2a. supported_x                        supportedness for programs that also contain choice rules with ARBITRARY
+                                            bounds and conditions (`{ p(G,V) : val(V) } 1 :- grp(G).` is such a rule;
+                                            ChainSem's supported_general only covers condition-free choices)
      2b. min_rule_meaning_x, next_rules_meaning_x   ChainSemGrouped's theorems on the larger fragment
          chain_meaning, chain_pred_meaning  ch(g,d) <-> d in dom(g) and d <= SOME value of p(g,.)  (no at-most-one needed)
      3a. chain_sum_is_max                   the chain tuples of a group sum up to the largest chosen value
@@ -93,72 +93,32 @@ Proof. reflexivity. Qed.
 (* ================================================================================================ *)
 Definition gpred (a: gatom) : string * nat := (fst a, List.length (snd a)).
 
-(* literals whose truth does not depend on the atoms of predicate q *)
-Definition plain_lit (q: string * nat) (l: lit) : Prop :=
-  match l with
-  | Lit _ (ASym (TFun n args _)) => (n, List.length args) <> q
-  | Lit _ (ACmp _ _) => True
-  | Lit _ (ABool _) => True
-  | _ => False
-  end.
-
-(* heads: the fragment of ChainSem.gen_head, or a choice with ARBITRARY bounds whose elements are atoms (of
-   any predicate, q included) under conditions that are plain literals not about q *)
-Inductive xhead (q: string * nat) : head -> Prop :=
-| XH_gen h : gen_head h -> xhead q h
+(* heads: the fragment of ChainSem.gen_head, or a choice with ARBITRARY bounds whose elements are atoms under
+   ARBITRARY conditions.  (Sem/Sat.v evaluates the bounds of a choice in the total interpretation only, as clingo
+   does: `l { .. } u :- B` is `{ .. } :- B` plus the constraint `:- B, not l { .. } u`; so bounds and conditions
+   play no role for supportedness.) *)
+Inductive xhead : head -> Prop :=
+| XH_gen h : gen_head h -> xhead h
 | XH_choice lg es rg :
-    (forall c, In c es -> (exists n args e, fst c = Lit NoSign (ASym (TFun n args e))) /\
-                          forall l, In l (snd c) -> plain_lit q l) ->
-    xhead q (HAgg lg es rg)
-(* a choice with an upper bound only, `{ a1 : c1; ... } k` (written k >= { ... }): ANY conditions *)
-| XH_upper k es :
     (forall c, In c es -> exists n args e, fst c = Lit NoSign (ASym (TFun n args e))) ->
-    xhead q (HAgg (Some (CGe, TSym (SNum k))) es None).
+    xhead (HAgg lg es rg).
 
-Definition plain_litb (q: string * nat) (l: lit) : bool :=
-  match l with
-  | Lit _ (ASym (TFun n args _)) => negb (andb (String.eqb n (fst q)) (Nat.eqb (List.length args) (snd q)))
-  | Lit _ (ACmp _ _) => true
-  | Lit _ (ABool _) => true
-  | _ => false
-  end.
-Definition xchoice_elemb (q: string * nat) (c: condlit) : bool :=
-  match fst c with
-  | Lit NoSign (ASym (TFun _ _ _)) => forallb (plain_litb q) (snd c)
-  | _ => false
-  end.
 Definition atom_elemb (c: condlit) : bool :=
   match fst c with Lit NoSign (ASym (TFun _ _ _)) => true | _ => false end.
-Definition upper_headb (h: head) : bool :=
-  match h with HAgg (Some (CGe, TSym (SNum _))) es None => forallb atom_elemb es | _ => false end.
-Definition xheadb (q: string * nat) (h: head) : bool :=
-  orb (gen_headb h) (orb (upper_headb h) (match h with HAgg _ es _ => forallb (xchoice_elemb q) es | _ => false end)).
-Definition xstmtb (q: string * nat) (st: stmt) : bool := match st with SRule _ h _ => xheadb q h | _ => true end.
-Definition xprogb (q: string * nat) (P: program) : bool := forallb (xstmtb q) P.
+Definition xheadb (h: head) : bool :=
+  orb (gen_headb h) (match h with HAgg _ es _ => forallb atom_elemb es | _ => false end).
+Definition xstmtb (st: stmt) : bool := match st with SRule _ h _ => xheadb h | _ => true end.
+Definition xprogb (P: program) : bool := forallb xstmtb P.
 
-Lemma plain_litb_spec q l : plain_litb q l = true -> plain_lit q l.
-Proof.
-  destruct l as [sg a]. destruct a as [t|t gs|b| | |]; simpl; try discriminate; auto.
-  destruct t; try discriminate. intros B E. destruct q as [qn qa]. injection E as <- <-.
-  simpl in B. rewrite String.eqb_refl, Nat.eqb_refl in B. discriminate.
-Qed.
-Lemma xheadb_spec q h : xheadb q h = true -> xhead q h.
+Lemma xheadb_spec h : xheadb h = true -> xhead h.
 Proof.
   unfold xheadb. intro B. apply orb_true_iff in B. destruct B as [B|B]; [apply XH_gen, gen_headb_spec; exact B|].
-  apply orb_true_iff in B. destruct B as [B|B].
-  { destruct h as [l|es|lg es rg|lg f es rg|tx]; try discriminate. simpl in B.
-    destruct lg as [[c t]|]; try discriminate. destruct c; try discriminate. destruct t as [|sy| | | | |]; try discriminate.
-    destruct sy as [|k| | |]; try discriminate. destruct rg; try discriminate. apply XH_upper.
-    rewrite forallb_forall in B. intros c Hc. specialize (B c Hc). unfold atom_elemb in B.
-    destruct c as [l cond]. simpl in *. destruct l as [sg a]. destruct sg; try discriminate.
-    destruct a as [t|t gs|b| | |]; try discriminate. destruct t; try discriminate. eauto. }
   destruct h as [l|es|lg es rg|lg f es rg|tx]; try discriminate. apply XH_choice.
-  rewrite forallb_forall in B. intros c Hc. specialize (B c Hc). unfold xchoice_elemb in B.
+  rewrite forallb_forall in B. intros c Hc. specialize (B c Hc). unfold atom_elemb in B.
   destruct c as [l cond]. simpl in *. destruct l as [sg a]. destruct sg; try discriminate.
-  destruct a as [t|t gs|b| | |]; try discriminate. destruct t; try discriminate.
-  split; [eauto|]. rewrite forallb_forall in B. intros l Hl. apply plain_litb_spec. apply B. exact Hl.
+  destruct a as [t|t gs|b| | |]; try discriminate. destruct t; try discriminate. eauto.
 Qed.
-Lemma xprogb_spec q P : xprogb q P = true -> forall line h b, In (SRule line h b) P -> xhead q h.
+Lemma xprogb_spec P : xprogb P = true -> forall line h b, In (SRule line h b) P -> xhead h.
 Proof. unfold xprogb. rewrite forallb_forall. intros F line h b Hin. apply xheadb_spec. exact (F _ Hin). Qed.
 
 Section Supported.
@@ -188,31 +148,14 @@ Qed.
 Lemma derives_x_lit T G s l a : derives_x T G s (HLit l) a -> head_derives G s (HLit l) a.
 Proof. intros D. inversion D; subst. assumption. Qed.
 
-Lemma plain_lit_minus (T: interp) a G th l : plain_lit (gpred a) l ->
-  (lit_sat G (fun b => T b /\ b <> a) T th l <-> lit_sat G T T th l).
-Proof.
-  destruct l as [sg at_]. destruct at_ as [t|t gs|b| | |]; simpl; try contradiction.
-  - destruct t as [| | | | |n args e|]; try contradiction. intro Ne. rewrite !lit_sat_fun. split.
-    + intros [vs [E X]]. exists vs. split; [exact E|]. destruct sg; simpl in *; [exact (proj1 X)|exact X|exact X].
-    + intros [vs [E X]]. exists vs. split; [exact E|]. destruct sg; simpl in *; [|exact X|exact X].
-      split; [exact X|]. intros Eq. apply Ne. rewrite <- Eq. unfold gpred. simpl.
-      rewrite (ChainSem.eval_list_length _ _ _ E). reflexivity.
-  - intros _. rewrite !lit_sat_cmp. tauto.
-  - intros _. rewrite !lit_sat_bool. tauto.
-Qed.
-
-Lemma nodup_incl_length {A} (l l': list A) : NoDup l' -> (forall x, In x l' -> In x l) -> (List.length l' <= List.length l)%nat.
-Proof. intros ND Inc. apply NoDup_incl_length; [exact ND|exact Inc]. Qed.
-
 Theorem supported_x P I T a :
-  sym_order sym_lt ->
-  (forall line h b, In (SRule line h b) P -> xhead (gpred a) h) ->
+  (forall line h b, In (SRule line h b) P -> xhead h) ->
   Sat.stable sym_lt P I T -> T a ->
   In a I \/
   exists line h b s, In (SRule line h b) P /\ derives_x T (gvars_rule h b) s h a /\
                      body_sat (gvars_rule h b) T T s b.
 Proof.
-  intros Ord Frag [[PT FT] Min] Ta. apply NNPP. intro Hno.
+  intros Frag [[PT FT] Min] Ta. apply NNPP. intro Hno.
   set (H := fun b : gatom => T b /\ b <> a).
   assert (S: subi H T) by (intros b [Tb _]; exact Tb).
   assert (Keep: forall line h b s x, In (SRule line h b) P -> body_sat (gvars_rule h b) T T s b ->
@@ -224,8 +167,8 @@ Proof.
     pose proof (PT _ Hin) as RT. simpl in RT. simpl. intros s. destruct (RT s) as [_ RTs]. split; [|exact RTs].
     intros BH. pose proof (body_sat_persist sym_lt _ _ _ _ _ S BH) as BT. specialize (RTs BT).
     pose proof (Frag _ _ _ Hin) as XH. set (G := gvars_rule h b) in *.
-    inversion XH as [h0 GH E|lg es rg Simple E|k es Simple E]; subst h.
-    - inversion GH as [n args e E|sg c E|es Simple E]; subst h0.
+    inversion XH as [h0 GH E|lg es rg Simple E]; subst h.
+    - inversion GH as [n args e E|sg c E|lg es rg Simple E]; subst h0.
       + change (lit_sat G H T s (Lit NoSign (ASym (TFun n args e)))).
         change (lit_sat G T T s (Lit NoSign (ASym (TFun n args e)))) in RTs.
         apply lit_sat_fun in RTs. destruct RTs as [vs [Ev Tv]]. simpl in Tv.
@@ -233,69 +176,22 @@ Proof.
         apply (Keep line _ b s (n, vs) Hin BT); [apply DX_gen; constructor; exact Ev | exact Tv].
       + change (lit_sat G H T s (Lit sg (ABool c))). change (lit_sat G T T s (Lit sg (ABool c))) in RTs.
         rewrite lit_sat_bool in *. exact RTs.
-      + simpl in RTs. destruct RTs as [_ [AT _]]. simpl. split; [|split; [|exact AT]].
-        * intros c th Hc Ag _. destruct (Simple c Hc) as [n [args [e ->]]]. simpl fst.
-          destruct (classic (lit_sat G T T th (Lit NoSign (ASym (TFun n args e))))) as [Y|N]; [left|right; exact N].
-          apply lit_sat_fun in Y. destruct Y as [vs [Ev Tv]]. simpl in Tv.
-          apply lit_sat_fun. exists vs. split; [exact Ev|]. simpl.
-          apply (Keep line _ b s (n, vs) Hin BT); [|exact Tv].
-          apply DX_gen. eapply HD_choice; eauto.
-        * destruct AT as [v [[l [[ND En] _]] _]].
-          assert (Sub: forall tv, choice_tuples G H T s es tv -> In tv l).
-          { intros tv [c [th [n [args [ext [vs [Hc [Ag [Ef [Ev [Etv [Cs Hv]]]]]]]]]]]]. apply En.
-            exists c, th, n, args, ext, vs. repeat (split; [assumption|]). split.
-            - eapply CleanupSpec.lits_sat_persist_proof; [exact S|exact Cs].
-            - apply S. exact Hv. }
-          destruct (Ground.finite_enum l (choice_tuples G H T s es) Sub) as [l' [ND' En']].
-          exists (SNum (Z.of_nat (List.length l'))). split; [|split; exact Logic.I].
-          exists l'. split; [split; assumption|reflexivity].
-    - (* a choice with bounds and plain conditions *)
-      simpl in RTs. destruct RTs as [_ [AT AT']]. simpl. split; [|split; [|exact AT']].
-      + intros c th Hc Ag Cs. destruct (Simple c Hc) as [[n [args [e Ec]]] _].
-        destruct c as [l0 cond]. simpl in Ec, Cs. subst l0. simpl fst.
+      + simpl in RTs. destruct RTs as [_ AT]. simpl. split; [|exact AT].
+        intros c th Hc Ag _. destruct (Simple c Hc) as [n [args [e ->]]]. simpl fst.
         destruct (classic (lit_sat G T T th (Lit NoSign (ASym (TFun n args e))))) as [Y|N]; [left|right; exact N].
         apply lit_sat_fun in Y. destruct Y as [vs [Ev Tv]]. simpl in Tv.
         apply lit_sat_fun. exists vs. split; [exact Ev|]. simpl.
         apply (Keep line _ b s (n, vs) Hin BT); [|exact Tv].
-        eapply DX_choice; eauto. eapply CleanupSpec.lits_sat_persist_proof; [exact S|exact Cs].
-      + assert (TE: AggSem.tup_eq (choice_tuples G H T s es) (choice_tuples G T T s es));
-          [|exact (proj2 (AggSem.agg_holds_ext sym_lt s lg FCount rg _ _ TE) AT)].
-        intro tv. split.
-        * intros [c [th [n [args [ext [vs [Hc [Ag [Ef [Ev [Etv [Cs Hv]]]]]]]]]]]].
-          exists c, th, n, args, ext, vs. repeat (split; [assumption|]). split.
-          -- eapply CleanupSpec.lits_sat_persist_proof; [exact S|exact Cs].
-          -- apply S. exact Hv.
-        * intros [c [th [n [args [ext [vs [Hc [Ag [Ef [Ev [Etv [Cs Hv]]]]]]]]]]]].
-          exists c, th, n, args, ext, vs. repeat (split; [assumption|]).
-          destruct (Simple c Hc) as [_ Pl]. split.
-          -- unfold Sat.lits_sat in *. rewrite Forall_forall in *. intros l Hl.
-             apply (plain_lit_minus T a G th l (Pl l Hl)). apply Cs. exact Hl.
-          -- destruct c as [l0 cond]. simpl in Ef, Cs. subst l0.
-             apply (Keep line _ b s (n, vs) Hin BT); [|exact Hv]. eapply DX_choice; eauto.
-    - (* a choice with an upper bound only: the count can only go down in H *)
-      simpl in RTs. destruct RTs as [_ [AT AT']]. simpl. split; [|split; [|exact AT']].
-      + intros c th Hc Ag Cs. destruct (Simple c Hc) as [n [args [e Ec]]].
-        destruct c as [l0 cond]. simpl in Ec, Cs. subst l0. simpl fst.
-        destruct (classic (lit_sat G T T th (Lit NoSign (ASym (TFun n args e))))) as [Y|N]; [left|right; exact N].
-        apply lit_sat_fun in Y. destruct Y as [vs [Ev Tv]]. simpl in Tv.
-        apply lit_sat_fun. exists vs. split; [exact Ev|]. simpl.
-        apply (Keep line _ b s (n, vs) Hin BT); [|exact Tv].
-        eapply DX_choice; eauto. eapply CleanupSpec.lits_sat_persist_proof; [exact S|exact Cs].
-      + destruct AT as [v [[l [[ND En] Ev]] [Gd _]]]. simpl in Gd.
-        assert (Sub: forall tv, choice_tuples G H T s es tv -> In tv l).
-        { intros tv [c [th [n [args [ext [vs [Hc [Ag [Ef [Ev' [Etv [Cs Hv]]]]]]]]]]]]. apply En.
-          exists c, th, n, args, ext, vs. repeat (split; [assumption|]). split.
-          - eapply CleanupSpec.lits_sat_persist_proof; [exact S|exact Cs].
-          - apply S. exact Hv. }
-        destruct (Ground.finite_enum l (choice_tuples G H T s es) Sub) as [l' [ND' En']].
-        exists (SNum (Z.of_nat (List.length l'))). split; [exists l'; split; [split; assumption|reflexivity]|].
-        split; [|exact Logic.I]. simpl.
-        assert (Le: (List.length l' <= List.length l)%nat).
-        { apply nodup_incl_length; [exact ND'|]. intros x Hx. apply Sub. apply En'. exact Hx. }
-        subst v. destruct (Nat.eq_dec (List.length l') (List.length l)) as [E|NE]; [rewrite E; exact Gd|].
-        left. apply (lt_num _ Ord). destruct Gd as [L|E].
-        * apply (lt_num _ Ord) in L. lia.
-        * injection E as E. lia. }
+        apply DX_gen. eapply HD_choice; eauto.
+    - (* a choice with arbitrary bounds and conditions: the bounds are evaluated in T only *)
+      simpl in RTs. destruct RTs as [_ AT']. simpl. split; [|exact AT'].
+      intros c th Hc Ag Cs. destruct (Simple c Hc) as [n [args [e Ec]]].
+      destruct c as [l0 cond]. simpl in Ec, Cs. subst l0. simpl fst.
+      destruct (classic (lit_sat G T T th (Lit NoSign (ASym (TFun n args e))))) as [Y|N]; [left|right; exact N].
+      apply lit_sat_fun in Y. destruct Y as [vs [Ev Tv]]. simpl in Tv.
+      apply lit_sat_fun. exists vs. split; [exact Ev|]. simpl.
+      apply (Keep line _ b s (n, vs) Hin BT); [|exact Tv].
+      eapply DX_choice; eauto. eapply CleanupSpec.lits_sat_persist_proof; [exact S|exact Cs]. }
   assert (FH: facts_sat H I).
   { intros x Hx. split; [apply FT; exact Hx|]. intros ->. apply Hno. left. exact Hx. }
   destruct (Min H S PS FH a Ta) as [_ Ne]. apply Ne. reflexivity.
@@ -305,11 +201,10 @@ End Supported.
 (* ================================================================================================ *)
 (* 2b. min / next on the larger fragment, the chain rules, chain_meaning                            *)
 (* ================================================================================================ *)
-(* every rule head of P is in the fragment w.r.t. every auxiliary predicate in aux *)
-Definition xfrag (P: program) (aux: list (string * nat)) : Prop :=
-  forall q, In q aux -> forall line h b, In (SRule line h b) P -> xhead q h.
-Lemma xfrag_of_b P aux : forallb (fun q => xprogb q P) aux = true -> xfrag P aux.
-Proof. rewrite forallb_forall. intros F q Hq. apply xprogb_spec. apply F. exact Hq. Qed.
+(* every rule head of P is in the fragment *)
+Definition xfrag (P: program) : Prop := forall line h b, In (SRule line h b) P -> xhead h.
+Lemma xfrag_of_b P : xprogb P = true -> xfrag P.
+Proof. intro B. exact (xprogb_spec P B). Qed.
 
 Section GroupedX.
 Variable sym_lt : sym -> sym -> Prop.
@@ -331,7 +226,7 @@ Proof. intro L. rewrite app_length. unfold ChainSemGrouped.k2. rewrite L. reflex
 (* ---- ChainSemGrouped.min_rule_meaning_g / next_rules_meaning_g / next_pred_meaning_g with supported_x ---- *)
 Theorem min_rule_meaning_x dom mn P I T :
   sym_order sym_lt ->
-  (forall line h b, In (SRule line h b) P -> xhead (mn, k1) h) ->
+  (forall line h b, In (SRule line h b) P -> xhead h) ->
   In (min_rule_g gs dom mn) P ->
   (forall line h b, In (SRule line h b) P -> In (mn, k1) (head_names h) -> SRule line h b = min_rule_g gs dom mn) ->
   (forall vs, List.length vs = k1 -> ~ In (mn, vs) I) ->
@@ -343,9 +238,7 @@ Proof.
   pose proof (len_k1 g v L) as Len1.
   split.
   - intros Tv.
-    assert (Frag': forall line h b, In (SRule line h b) P -> xhead (gpred (mn, g ++ [v])) h).
-    { unfold gpred. simpl. rewrite Len1. exact Frag. }
-    destruct (supported_x sym_lt P I T (mn, g ++ [v]) Ord Frag' St Tv) as [Hin|[line [h [b [s [Hin [HD Bd]]]]]]].
+    destruct (supported_x sym_lt P I T (mn, g ++ [v]) Frag St Tv) as [Hin|[line [h [b [s [Hin [HD Bd]]]]]]].
     + exfalso. exact (NoF _ Len1 Hin).
     + pose proof (derives_x_names _ _ _ _ _ _ _ HD) as Hn. rewrite Len1 in Hn.
       pose proof (Only line h b Hin Hn) as E. injection E as _ -> ->.
@@ -369,7 +262,7 @@ Qed.
 
 Theorem next_rules_meaning_x dom mn nx P I T :
   sym_order sym_lt ->
-  (forall line h b, In (SRule line h b) P -> xhead (nx, k2) h) ->
+  (forall line h b, In (SRule line h b) P -> xhead h) ->
   In (next_rule_base_g gs dom mn nx) P -> In (next_rule_step_g gs dom nx) P ->
   (forall line h b, In (SRule line h b) P -> In (nx, k2) (head_names h) ->
      SRule line h b = next_rule_base_g gs dom mn nx \/ SRule line h b = next_rule_step_g gs dom nx) ->
@@ -391,9 +284,7 @@ Proof.
       intros w Tw. apply Least. apply DomD. exact Tw.
     + exact (step_closed_g sym_lt gs gs_nodup gs_fresh T dom nx (PT _ Hs) g q p n L Nq Hn Lt Nb).
   - intros p n Tpn. pose proof (len_k2 g p n L) as Len2.
-    assert (Frag': forall line h b, In (SRule line h b) P -> xhead (gpred (nx, g ++ [p; n])) h).
-    { unfold gpred. simpl. rewrite Len2. exact Frag. }
-    destruct (supported_x sym_lt P I T (nx, g ++ [p; n]) Ord Frag' St Tpn) as [Hin|[line [h [b [s [Hin [HD Bd]]]]]]].
+    destruct (supported_x sym_lt P I T (nx, g ++ [p; n]) Frag St Tpn) as [Hin|[line [h [b [s [Hin [HD Bd]]]]]]].
     + exfalso. exact (NoF _ Len2 Hin).
     + pose proof (derives_x_names _ _ _ _ _ _ _ HD) as Hn. rewrite Len2 in Hn.
       destruct (Only line h b Hin Hn) as [E|E]; injection E as _ -> ->; apply derives_x_lit in HD.
@@ -472,14 +363,14 @@ Proof.
 Qed.
 
 (* chain_meaning.  Hypotheses:
-   - sym_lt is a strict total order; rule heads of P in the fragment xhead w.r.t. ch/(k+1);
+   - sym_lt is a strict total order; rule heads of P in the fragment xhead;
    - the two chain rules are in P and are the only rules with ch/(k+1) in the head; no ch-facts in I;
    - for the group g: D is the sorted extension of dom(g,.), nx(g,.,.) is its successor relation
      (next_pred_meaning_x), and p(g,.) is contained in dom(g,.)  (the domain over-approximates).
    The at-most-one property of p is NOT needed here: the chain is the down-closure of ALL values of p(g,.). *)
 Theorem chain_meaning p ch nx P I T :
   sym_order sym_lt ->
-  (forall line h b, In (SRule line h b) P -> xhead (ch, k1) h) ->
+  (forall line h b, In (SRule line h b) P -> xhead h) ->
   In (chain_rule_base_g p ch) P -> In (chain_rule_step_g ch nx) P ->
   (forall line h b, In (SRule line h b) P -> In (ch, k1) (head_names h) ->
      SRule line h b = chain_rule_base_g p ch \/ SRule line h b = chain_rule_step_g ch nx) ->
@@ -499,9 +390,7 @@ Proof.
   - intros v Tv. exact (chain_base_closed T p ch (PT _ Hb) g v L Tv).
   - intros a b Tb Cab. apply NX in Cab. exact (chain_step_closed T ch nx (PT _ Hs) g a b L Tb Cab).
   - intros v Tv. pose proof (len_k1 g v L) as Len1.
-    assert (Frag': forall line h b, In (SRule line h b) P -> xhead (gpred (ch, g ++ [v])) h).
-    { unfold gpred. simpl. rewrite Len1. exact Frag. }
-    destruct (supported_x sym_lt P I T (ch, g ++ [v]) Ord Frag' St Tv) as [Hin|[line [h [b [s [Hin [HD Bd]]]]]]].
+    destruct (supported_x sym_lt P I T (ch, g ++ [v]) Frag St Tv) as [Hin|[line [h [b [s [Hin [HD Bd]]]]]]].
     + exfalso. exact (NoF _ Len1 Hin).
     + pose proof (derives_x_names _ _ _ _ _ _ _ HD) as Hn. rewrite Len1 in Hn.
       destruct (Only line h b Hin Hn) as [E|E]; injection E as _ -> ->; apply derives_x_lit in HD;
@@ -514,7 +403,7 @@ Qed.
 (* ---- everything together: the domain rules of ChainSemGrouped and the chain rules ---- *)
 Theorem chain_pred_meaning dom mn nx p ch P I T :
   sym_order sym_lt ->
-  xfrag P [(mn, k1); (nx, k2); (ch, k1)] ->
+  xfrag P ->
   In (min_rule_g gs dom mn) P -> In (next_rule_base_g gs dom mn nx) P -> In (next_rule_step_g gs dom nx) P ->
   In (chain_rule_base_g p ch) P -> In (chain_rule_step_g ch nx) P ->
   (forall line h b, In (SRule line h b) P -> In (mn, k1) (head_names h) -> SRule line h b = min_rule_g gs dom mn) ->
@@ -538,9 +427,9 @@ Proof.
   destruct (Count.sort_nodup sym sym_lt (lt_trans _ Ord) (lt_total _ Ord) l' ND) as [D [Pm SD]].
   assert (DomD: forall v, T (dom, g ++ [v]) <-> In v D).
   { intro v. rewrite Fin, <- E'. split; apply Permutation_in; [exact Pm|apply Permutation_sym; exact Pm]. }
-  assert (FM: forall line h b, In (SRule line h b) P -> xhead (mn, k1) h) by (apply Frag; simpl; auto).
-  assert (FN: forall line h b, In (SRule line h b) P -> xhead (nx, k2) h) by (apply Frag; simpl; auto).
-  assert (FC: forall line h b, In (SRule line h b) P -> xhead (ch, k1) h) by (apply Frag; simpl; auto).
+  assert (FM: forall line h b, In (SRule line h b) P -> xhead h) by exact Frag.
+  assert (FN: forall line h b, In (SRule line h b) P -> xhead h) by exact Frag.
+  assert (FC: forall line h b, In (SRule line h b) P -> xhead h) by exact Frag.
   pose proof (min_rule_meaning_x dom mn P I T Ord FM Hm OnlyM NoM St g L) as Mn.
   pose proof (next_rules_meaning_x dom mn nx P I T Ord FN Hb Hs OnlyN NoN St g L Mn D SD DomD) as NX.
   exists D. split; [exact SD|]. split; [exact DomD|]. split; [|split; [exact NX|]].
@@ -1744,7 +1633,7 @@ Hypothesis St : Sat.stable sym_lt Q_norm I T.
 Notation lit_sat := (lit_sat sym_lt).
 Notation body_sat := (body_sat sym_lt).
 
-Lemma frag q line h b : In (SRule line h b) Q_norm -> xhead q h.
+Lemma frag line h b : In (SRule line h b) Q_norm -> xhead h.
 Proof. apply xprogb_spec. reflexivity. Qed.
 
 Lemma PT st : In st Q_norm -> stmt_sat sym_lt T T st.
@@ -1756,7 +1645,7 @@ Lemma supp a : T a ->
   In a I \/ exists line h b s, In (SRule line h b) (defs (gpred a) Q_norm) /\
                                derives_x sym_lt T (gvars_rule h b) s h a /\ body_sat (gvars_rule h b) T T s b.
 Proof.
-  intro Ta. destruct (supported_x sym_lt Q_norm I T a Ord (frag (gpred a)) St Ta) as [Hin|[line [h [b [s [Hin [HD Bd]]]]]]];
+  intro Ta. destruct (supported_x sym_lt Q_norm I T a frag St Ta) as [Hin|[line [h [b [s [Hin [HD Bd]]]]]]];
     [left; exact Hin|right].
   exists line, h, b, s. split; [|split; assumption]. apply defs_spec; [exact Hin|].
   destruct a as [n vs]. exact (derives_x_names sym_lt T _ s h n vs HD).
@@ -1815,7 +1704,7 @@ Proof.
   intro Tp. destruct (supp _ Tp) as [Hin|[line [h [b [s [Hin [HD Bd]]]]]]]; [exfalso; revert Hin; apply not_fact; discriminate|].
   vm_compute in Hin. destruct Hin as [E|[]]. injection E as <- <- <-.
   inversion HD as [h0 a0 HD0|lg es rg n args e cond th vs Hin Ag Ev Cs]; subst.
-  - inversion HD0.
+  - inversion HD0 as [|? ? ? ? ? ? ? ? Hin0]; subst. destruct Hin0 as [E|[]]. discriminate E.
   - destruct Hin as [E|[]]. injection E as <- <- <-. simpl in Ev. injection Ev as <- <-.
     apply NormalizeSpec.lits_sat_one in Cs. apply lit1_sat in Cs.
     unfold Sat.body_sat in Bd. inversion Bd as [|? ? B _]; subst.
@@ -1832,7 +1721,7 @@ Proof.
   match type of R2 with body_sat ?G0 _ _ _ _ -> _ => set (G := G0) in * end.
   assert (Bd: body_sat G T T (sGV g v) [BLit (Lit NoSign (ASym (TFun "grp" [TVar "G"] false)))]).
   { constructor; [|constructor]. apply blit1_sat. exact Tg. }
-  apply R2 in Bd. simpl in Bd. destruct Bd as [_ [[c [[l [[ND En] Ec]] [Gd _]]] _]].
+  apply R2 in Bd. simpl in Bd. destruct Bd as [_ [c [[l [[ND En] Ec]] [Gd _]]]].
   assert (In1: forall w, T ("p", [g; w]) -> T ("val", [w]) -> In [SFun "p" [g; w] true] l).
   { intros w Tw Tvw. apply En.
     exists (atg ["G"] NoSign "p" ["V"], [Lit NoSign (ASym (TFun "val" [TVar "V"] false))]), (sGV g w), "p", [TVar "G"; TVar "V"], false, [g; w].
@@ -1868,7 +1757,7 @@ Lemma aux_meaning x :
     (forall d, T (ch, [x] ++ [d]) <-> In d D /\ exists v, T ("p", [x] ++ [v]) /\ (d = v \/ sym_lt d v)).
 Proof.
   apply (chain_pred_meaning sym_lt G0 G0_nodup G0_fresh dom mn nx "p" ch Q_norm I T Ord).
-  - intros q _. apply frag.
+  - exact frag.
   - in_prog.
   - in_prog.
   - in_prog.
@@ -2055,7 +1944,7 @@ Proof. rewrite atg_sat. simpl. tauto. Qed.
 Lemma choice_head_dir H T H2 T2 s : agreeV H H2 -> agreeV T T2 ->
   head_sat Gc H T s choice_head -> head_sat Gc H2 T2 s choice_head.
 Proof.
-  intros AH AT [CE [A1 A2]].
+  intros AH AT [CE A2].
   assert (TE: forall X X2 Y Y2, agreeV X X2 -> agreeV Y Y2 ->
             AggSem.tup_eq (choice_tuples sym_lt Gc X Y s choice_es) (choice_tuples sym_lt Gc X2 Y2 s choice_es)).
   { assert (D: forall X X2 Y Y2, agreeV X X2 -> forall tv,
@@ -2067,13 +1956,12 @@ Proof.
       - simpl snd. apply val_lit_sat. apply (AX _ (V_val _)). apply (val_lit_sat Gc X Y th). exact Cs.
       - apply (AX _ (V_p vs)). exact Xv. }
     intros X X2 Y Y2 AX AY tv. split; [apply D; exact AX|apply D; apply agreeV_sym; exact AX]. }
-  split; [|split].
+  split.
   - intros c th Hc Ag Cs. destruct Hc as [<-|[]]. simpl fst. simpl snd in Cs.
     apply val_lit_sat in Cs. apply (AH _ (V_val _)) in Cs.
     destruct (CE _ th (or_introl eq_refl) Ag (proj2 (val_lit_sat Gc H T th) Cs)) as [L|N].
     + left. simpl fst in L. apply p_lit_sat in L. apply p_lit_sat. apply (AH _ (V_p _)). exact L.
     + right. intro L. apply N. simpl fst. apply p_lit_sat in L. apply p_lit_sat. apply (AT _ (V_p _)). exact L.
-  - exact (proj1 (AggSem.agg_holds_ext sym_lt s _ FCount None _ _ (TE H H2 T T2 AH AT)) A1).
   - exact (proj1 (AggSem.agg_holds_ext sym_lt s _ FCount None _ _ (TE T T2 T T2 AT AT)) A2).
 Qed.
 
@@ -2189,8 +2077,8 @@ Proof.
     { intros n vs Nn Tn. right. split; [exact Nn|exact Tn]. }
     (* the choice rule forces H and T' to agree on p *)
     assert (Hp: forall g v, T' ("p", [g; v]) -> H ("p", [g; v])).
-    { intros g v Tp. destruct (p_in_dom sym_lt Ord I T' IOK St g v Tp) as [Tv Tg].
-      apply (val_facts sym_lt Ord I T' St) in Tv. apply (grp_facts sym_lt Ord I T' St) in Tg.
+    { intros g v Tp. destruct (p_in_dom sym_lt I T' IOK St g v Tp) as [Tv Tg].
+      apply (val_facts sym_lt I T' St) in Tv. apply (grp_facts sym_lt I T' St) in Tg.
       pose proof (PS choice_rule ltac:(simpl; auto)) as R. destruct (R (sGV g v)) as [R1 _].
       assert (Bd: body_sat Gc H Tr (sGV g v) choice_body).
       { apply NormalizeSpec.body_sat_one. apply (at1_sat sym_lt Gc H Tr (sGV g v) NoSign "grp" "G"). apply FH. exact Tg. }
